@@ -253,7 +253,8 @@ def gen_live(rng):
                    "pipe_out": rng.random() < 0.5, "pipe_err": rng.random() < 0.5})
     ops = [["I"]]
     spawns = 0
-    while spawns < rng.randint(3, 6):
+    nspawn = rng.randint(3, 5)          # 4 live cases per thorough run: at most 20 real forks
+    while spawns < nspawn:
         r = rng.random()
         if r < 0.5:
             ops.append(["S", rng.randrange(2)]); spawns += 1
